@@ -49,3 +49,17 @@ Theorem C06_horizontal_sum_order_independent :
   forall w l1 l2 l, (0 < w)%Z -> Permutation.Permutation l (l1 ++ l2) -> h_sum w l = wrap w (h_sum w l1 + h_sum w l2).
 Proof. intros w l1 l2 l Hw Hp. rewrite (h_sum_perm w l (l1 ++ l2) Hw Hp). apply h_sum_app; exact Hw. Qed.
 Print Assumptions C06_horizontal_sum_order_independent.
+
+(** * Tie to the source (translator): the instruction-set section of config/config.h, the alignment ladder of
+    config/macros.h and the ladder defining simd_abi::native are evaluated on every run from the macros the compiler
+    predefines under the flags of each configuration of the grid [scalar; sse2; sse42; avx; avx2; avx512].  The
+    native ABI, masked-kernel availability and FMA availability are those of the model configurations the
+    correspondence is run with (lib/common.py compares its table with this one on every run), and the storage
+    alignment is the byte size of the native vector (>= 16 in the scalar configuration). *)
+From FastorV Require Import Gen.Generated Proofs.GenEinsumEq.
+Theorem C06_source_configuration_table :
+  map (fun r : nat * bool * bool * nat => let '(a, m, f, _) := r in (a, m, f)) gen_isa_table
+  = [(0, false, false); (1, false, false); (1, false, false); (2, false, false); (2, true, true); (3, true, true)] /\
+  forallb (fun r : nat * bool * bool * nat => let '(a, _, _, al) := r in if a =? 0 then 16 <=? al else gen_simd_vector_size a 1 =? al) gen_isa_table = true.
+Proof. exact gen_isa_table_ok. Qed.
+Print Assumptions C06_source_configuration_table.
